@@ -504,6 +504,64 @@ def stale_length_rule(rep, fn):
     return n
 
 
+def stale_end_rule(rep, fn):
+    """`end = base + size;  loop { ... size -= k ... use(end) ... }`: an end pointer computed once from a base and a size, and
+    read inside a loop that changes the size but neither the base nor the end pointer, still marks the *old* end of the
+    data from the second round on.  (A loop that advances the base by what it takes from the size keeps base + size
+    constant and is not reported.)"""
+    n = 0
+    writes = {}
+    for pos, root, x, ps in fn.nodes():
+        t = None
+        if x.get("k") == "un" and ("++" in x["op"] or "--" in x["op"]):
+            t = core.strip_casts(x["e"])
+        elif x.get("k") == "bin" and x["op"].endswith("=") and x["op"] not in ("==", "!=", "<=", ">="):
+            t = core.strip_casts(x["x"])
+        elif x.get("k") == "un" and x["op"] == "&" and ps and ps[-1].get("k") in ("call", "cast"):
+            t = core.strip_casts(x["e"])
+        if t is not None and t.get("k") == "ref" and t.get("dk") in ("local", "parm"):
+            writes.setdefault(t.get("id"), []).append((pos, x))
+    loops = fn.loops()
+    for eid, ws in writes.items():
+        defs = [(p_, x_) for p_, x_ in ws if x_.get("k") == "bin" and x_["op"] == "="]
+        if len(defs) != 1 or len(ws) != 1:
+            continue
+        dpos, dx = defs[0]
+        y = core.strip_casts(dx["y"])
+        if not (y is not None and y.get("k") == "bin" and y.get("op") == "+"):
+            continue
+        a, b = core.strip_casts(y["x"]), core.strip_casts(y["y"])
+        if a.get("k") != "ref" or b.get("k") != "ref" or "t" not in a or "t" not in b:
+            continue
+        ta, tb = fn.unit.type(a["t"]), fn.unit.type(b["t"])
+        if ta["k"] == "ptr" and tb["k"] == "int":
+            base, size = a, b
+        elif tb["k"] == "ptr" and ta["k"] == "int":
+            base, size = b, a
+        else:
+            continue
+        end = core.strip_casts(dx["x"])
+        for h, body in loops.items():
+            if dpos[0] in body or not fn.dominates(dpos[0], h):
+                continue
+            size_w = [(p_, x_) for p_, x_ in writes.get(size.get("id"), []) if p_[0] in body]
+            base_w = [(p_, x_) for p_, x_ in writes.get(base.get("id"), []) if p_[0] in body]
+            reads = [pos for pos, root, x, ps in fn.nodes() if pos[0] in body and x.get("k") == "ref" and x.get("id") == eid]
+            if not size_w or not reads:
+                continue
+            n += 1
+            inst = "stale-end:%s=%s+%s" % (end.get("n"), base.get("n"), size.get("n"))
+            desc = "%s: the end pointer '%s' = %s + %s read inside the loop at line %s is recomputed when the loop changes '%s'" % (
+                fn.name, end.get("n"), base.get("n"), size.get("n"), (fn.blocks[h].cond or {}).get("ln"), size.get("n"))
+            if base_w:
+                rep.proved("R-STALE", fn, inst, desc, "the loop moves '%s' together with '%s'" % (base.get("n"), size.get("n")), dx.get("ln"))
+            else:
+                rep.violated("R-STALE", fn, inst, desc, "'%s' is computed once at line %s; the loop changes '%s' at line %s and keeps reading '%s': "
+                             "from the second round on it points behind the data" % (end.get("n"), dx.get("ln"), size.get("n"),
+                                                                                      size_w[0][1].get("ln"), end.get("n")), dx.get("ln"))
+    return n
+
+
 def stale_remaining_rule(rep, fn):
     """`left = end - cur` ties a remaining-size variable to a cursor.  Wherever the cursor is given a new value afterwards
     (assignment, or its address handed to a callee), the same block also updates `left` - otherwise the loop that follows
@@ -616,6 +674,7 @@ def run_scope(rep, tier, us, exclude=(), only=None, budget_quick=45, extra_rules
             tail_fill_rule(rep, fn)
             stale_length_rule(rep, fn)
             stale_remaining_rule(rep, fn)
+            stale_end_rule(rep, fn)
             for r in extra_rules:
                 r(rep, fn)
     return nfn, total
@@ -640,5 +699,7 @@ def selftest_cursor():
             unguarded_write_rule(rep, f)
             tail_fill_rule(rep, f)
             stale_length_rule(rep, f)
-    fixtures.expect(rep, ["fx_gather_bad", "fx_zero_bad", "fx_fill_bad", "fx_pair_bad"], ["fx_gather_ok", "fx_zero_ok", "fx_fill_ok", "fx_pair_ok"],
-                    "R-STALE / R-GUARD0 / tail fill / stale length")
+            stale_end_rule(rep, f)
+    fixtures.expect(rep, ["fx_gather_bad", "fx_zero_bad", "fx_fill_bad", "fx_pair_bad", "fx_end_bad"],
+                    ["fx_gather_ok", "fx_zero_ok", "fx_fill_ok", "fx_pair_ok", "fx_end_ok"],
+                    "R-STALE / R-GUARD0 / tail fill / stale length / stale end")
